@@ -104,6 +104,7 @@ template <class MakeCase>
 inline Verdict enum_drive(uint64_t total, int shard, int nshards, Verdict (*check)(const Fields &), MakeCase make, Fields *failing) {
   for (uint64_t idx = (uint64_t)shard; idx < total; idx += (uint64_t)nshards) {
     Fields f = make(idx);
+    note_case(f);
     Verdict v = check(f);
     if (v.kind == Verdict::DISCARD) continue;
     stats().evaluations++;
